@@ -121,6 +121,12 @@ CHECKS = {
             "Exact order of every probe event and identity of the surfaced error compared with the model over DAG shapes x kinds x "
             "truth assignments with several falsy contracts.",
             "Executions produced only; diamonds compared modulo per-path repetition; optional events where the statement is silent.", "3/C16"),
+    "C20": ("exploration", "runtime monitoring in subprocesses across PYTHONHASHSEED values: byte comparison of repeated / permuted / re-run violation messages, instrumented a_repr logging every request",
+            "Generated violations are raised 3x interleaved with unrelated ones, with up to 24 keyword-argument permutations, and re-run in "
+            "4 subprocesses with different hash seeds; the monitor compares all messages byte for byte, checks sortedness of entries, that "
+            "every rendered value was produced by the contract's own (logging) a_repr, and that classes/functions/methods/modules/builtins "
+            "and unnamed _ARGS/_KWARGS never key an entry.",
+            "Executions produced only; memory addresses inside a displayed _KWARGS are masked when comparing across processes.", "3/C20"),
 }
 
 
@@ -149,7 +155,7 @@ def main() -> None:
                 "technique": tech,
             })
         else:
-            not_applicable.append({"property_id": pid, "reason": "check not built yet (work in progress); will be claimed once its monitor exists"})
+            not_applicable.append({"property_id": pid, "reason": "no check registered for this property"})
     manifest = {
         "version": 1,
         "setup_cmd": "/venv/bin/python -m compileall -q vkit",
